@@ -371,6 +371,28 @@ def _order(ck, p):
                    {"awaits_before_lock": names})
     else:
         ck.proved(rule, "Backend::update_document", f.loc(lt["ln"]), "no await point other than the doc_state lock precedes the store (or the store is version-guarded)")
+    # a refresh refreshes: once the lock is held, every path to a return stores a freshly built Document
+    # or removes the state (no shortcut that keeps a Document parsed under an older configuration)
+    lock_ready = [b for b in lock_polls]
+    stores = []
+    for bi, b in enumerate(f.blocks):
+        if b["cleanup"]:
+            continue
+        for s in b["s"]:
+            if s["k"] == "assign" and len(s["lhs"]) > 1 and isinstance(s["lhs"][-1], list) and s["lhs"][-1][0] == "f" and s["lhs"][-1][2] == "document":
+                src = arg_roots(f, pv, s["rv"]["op"]) if s["rv"]["k"] == "use" else set()
+                if any(o[0] == "call" and (o[3] or "").startswith("harper_core::document::") and last(norm(o[3] or "")).startswith("new") for o in src):
+                    stores.append(bi)
+    removes = [bi for bi, t in f.calls() if method(t) == "remove" and "doc_state" in _lock_chain(f, pv, t["args"][0])]
+    # success returns only: a path that produces Err (`?`) reports the failure instead
+    oks = [bi for bi, b in enumerate(f.blocks) if not b["cleanup"] and any(
+        s["k"] == "assign" and s["lhs"] == [0] and s["rv"]["k"] == "agg" and s["rv"].get("vname") == "Ok" for s in b["s"])]
+    ok, wit = (False, None)
+    if lock_ready and (stores or removes) and oks:
+        ok, wit = cfg.every_path_passes(lock_ready[0], set(stores) | set(removes), to=oks)
+    ck.decide("R-C09-publish", "Backend::update_document:always-stores", ok, f.span,
+              "after the doc_state lock every path to an Ok return (%d) assigns doc_state.document = Document::new(..) (%d site(s)) or removes the state (%d site(s)): %s%s" % (
+                  len(oks), len(stores), len(removes), ok, "" if ok else " — a path keeps the old Document: %s" % wit))
     # did_open / did_change reach the store only through update_document (no await before calling it)
     for name in ("did_open", "did_change"):
         h = handler(p, name)
